@@ -1,4 +1,5 @@
 """C15 — Bezier extrema, bounding boxes, closest-point search and length bound the curve."""
+import re
 import driver
 import veccore
 import opscore
@@ -217,6 +218,74 @@ def add_cubic_theorems(u, cv, lc):
                    % D('infl.unwrap().1.unwrap().v@')]
         asserts += ['0real <= mn.v@ <= 1real', '0real <= mx.v@ <= 1real']
         u.add(cv.path, thm_fn('thm_inflections_%s_%s' % (a, cv.mod), ['b: %s<R>' % N], pre, body, asserts, 'C15'))
+
+
+def cubic_extremality_lemmas():
+    """no point of a cubic on [0,1] lies beyond the best of: both ends and the zeros of the derivative inside (0,1).
+    Stated for G(t) = x(t) - x(0) = a t^3/3 + b t^2/2 + c t (a, b, c the derivative's power-basis coefficients): in this form z3 (nlsat)
+    decides each case at once; `lemma_cubic_power` (an identity) ties G to the Bernstein form of the control points."""
+    from fractions import Fraction
+    out = []
+    q = [var('q%d' % k) for k in range(4)]
+    t = var('t')
+    A = const(3) * (q[3] - const(3) * q[2] + const(3) * q[1] - q[0])
+    B = const(6) * (q[2] - const(2) * q[1] + q[0])
+    Cc = const(3) * (q[1] - q[0])
+    Gq = lambda tt: A * const(Fraction(1, 3)) * tt * tt * tt + B * const(Fraction(1, 2)) * tt * tt + Cc * tt
+    out.append(L.Lemma('lemma_cubic_power', q + [t], [], [(bern(3, [SV([x]) for x in q], t)[0] - q[0]).eq(Gq(t))],
+                       doc='x(t) - x(0) in the power basis of the derivative coefficients'))
+    a, b, c, uu, sq, r1, r2, rl = [var(n) for n in ('a', 'b', 'c', 'u', 'sq', 'r1', 'r2', 'rl')]
+    G = lambda tt: a * const(Fraction(1, 3)) * tt * tt * tt + b * const(Fraction(1, 2)) * tt * tt + c * tt
+    IN = lambda x: X.and_(x.gt(0), x.lt(1))
+    dom = [uu.ge(0), uu.le(1)]
+    for kind in ('min', 'max'):
+        better = (lambda p_, q_: p_.ge(q_)) if kind == 'min' else (lambda p_, q_: p_.le(q_))
+        ends = [better(G(uu), ZERO), better(G(uu), G(ONE))]
+        out.append(L.Lemma('lemma_cubic_%s_two_roots' % kind, [a, b, c, uu, sq, r1, r2],
+                           [a.ne(0), sq.ge(0), (sq * sq).eq(b * b - const(4) * a * c), (r1 * (a + a)).eq(-b - sq), (r2 * (a + a)).eq(-b + sq)] + dom,
+                           [X.or_(*(ends + [X.and_(IN(r1), better(G(uu), G(r1))), X.and_(IN(r2), better(G(uu), G(r2)))]))],
+                           doc='derivative with two real zeros: the %s over [0,1] is at an end or at a zero inside (0,1)' % kind))
+        out.append(L.Lemma('lemma_cubic_%s_no_root' % kind, [a, b, c, uu], [a.ne(0), (b * b - const(4) * a * c).le(0)] + dom, [X.or_(*ends)],
+                           doc='derivative of constant sign: the %s is at an end' % kind))
+        out.append(L.Lemma('lemma_cubic_%s_linear' % kind, [a, b, c, uu, rl], [a.eq(0), b.ne(0), (rl * b).eq(-c)] + dom,
+                           [X.or_(*(ends + [X.and_(IN(rl), better(G(uu), G(rl)))]))], doc='linear derivative'))
+        out.append(L.Lemma('lemma_cubic_%s_const' % kind, [a, b, c, uu], [a.eq(0), b.eq(0)] + dom, [X.or_(*ends)], doc='constant derivative'))
+    return out
+
+
+def add_cubic_extrema_theorems(u, cv):
+    """for every axis: no point of the cubic on [0,1] has a smaller (larger) coordinate than the curve at min_* (max_*); the bounding
+    rectangle / box (in curve coordinates) therefore contains every point of the curve on [0,1] and touches it on each side"""
+    N = cv.name
+    bn = 'aabr' if cv.dim == 2 else 'aabb'
+    for k in range(cv.dim):
+        a = AX[k]
+        lets = cubic_lets(cv, 'b', a)
+        ghost = lets.replace('let ', 'let ghost ')
+        q = ', '.join('b.%s.%s.v@' % (p, a) for p in cv.pts)
+        pre = ['({ %s (ca == 0real || abs_r(ca) > eps_r()) && (cb == 0real || abs_r(cb) > eps_r()) && (disc == 0real || abs_r(disc) > eps_r())'
+               ' && (cc == 0real || abs_r(cc) > eps_r()) })' % lets, '0real <= w.v@ <= 1real']
+        body = ('    %s\n'
+                '    proof { axiom_eps();\n'
+                '        if ca != 0real && disc >= 0real { axiom_sqrt(disc); lemma_div_mul(-cb - sq, ca + ca); lemma_div_mul(-cb + sq, ca + ca); }\n'
+                '        if ca != 0real { lemma_div_mul(-cb, ca + ca); }\n'
+                '        if cb != 0real { lemma_div_mul(-cc, cb); }\n'
+                '    }\n'
+                '    let mn = b.min_%s();\n    let mx = b.max_%s();\n'
+                '    let pw = b.evaluate(w);\n    let pmn = b.evaluate(mn);\n    let pmx = b.evaluate(mx);\n    let bx = b.BOXFN();\n'
+                '    proof {\n'
+                '        crate::lemma_cubic_power(%s, w.v@); crate::lemma_cubic_power(%s, 0real); crate::lemma_cubic_power(%s, 1real);\n'
+                '        crate::lemma_cubic_power(%s, r1); crate::lemma_cubic_power(%s, r2); crate::lemma_cubic_power(%s, rl); crate::lemma_cubic_power(%s, rd);\n'
+                '        if ca != 0real && disc >= 0real { crate::lemma_cubic_min_two_roots(ca, cb, cc, w.v@, sq, r1, r2); crate::lemma_cubic_max_two_roots(ca, cb, cc, w.v@, sq, r1, r2); }\n'
+                '        if ca != 0real && disc <= 0real { crate::lemma_cubic_min_no_root(ca, cb, cc, w.v@); crate::lemma_cubic_max_no_root(ca, cb, cc, w.v@); }\n'
+                '        if ca == 0real && cb != 0real { crate::lemma_cubic_min_linear(ca, cb, cc, w.v@, rl); crate::lemma_cubic_max_linear(ca, cb, cc, w.v@, rl); }\n'
+                '        if ca == 0real && cb == 0real { crate::lemma_cubic_min_const(ca, cb, cc, w.v@); crate::lemma_cubic_max_const(ca, cb, cc, w.v@); }\n'
+                '    }\n'
+                % (ghost, a, a, q, q, q, q, q, q, q)).replace('BOXFN', bn)
+        asserts = ['0real <= mn.v@ <= 1real', '0real <= mx.v@ <= 1real', 'pw.%s.v@ >= pmn.%s.v@' % (a, a), 'pw.%s.v@ <= pmx.%s.v@' % (a, a),
+                   'bx.min.%s.v@ == pmn.%s.v@ && bx.max.%s.v@ == pmx.%s.v@' % (a, a, a, a),
+                   'bx.min.%s.v@ <= pw.%s.v@ && pw.%s.v@ <= bx.max.%s.v@' % (a, a, a, a)]
+        u.add(cv.path, thm_fn('thm_cubic_extrema_%s_%s' % (a, cv.mod), ['b: %s<R>' % N, 'w: R'], pre, body, asserts, 'C15'))
 
 
 def add_quad_box_theorem(u, cv, lq):
@@ -441,9 +510,10 @@ def plan(exp, tier):
         u.take(cv.path, 'impl<T: Real> %s<T>' % cv.name, 'evaluate', C(ensures=veq(cv.sh, 'res', bern(3, pts, t))))
         add_cubic(u, cv)
         add_cubic_theorems(u, cv, lc)
+        add_cubic_extrema_theorems(u, cv)
         add_length(u, cv)
         add_search(u, cv)
-    lt = triangle_lemmas() + [bern_end_lemma(2), bern_end_lemma(3)] + dist_sym_lemmas() + length_lemmas()
+    lt = triangle_lemmas() + [bern_end_lemma(2), bern_end_lemma(3)] + dist_sym_lemmas() + length_lemmas() + cubic_extremality_lemmas()
     import prelude
     u.add_root(prelude.FROM_U16)
     for lm in lq + lc + lt:
